@@ -33,6 +33,25 @@ __CPROVER_ensures(!(__CPROVER_return_value && __CPROVER_old(self->pos_data_decod
 __CPROVER_ensures(!__CPROVER_return_value || (self->traversal_method >= 0 && self->traversal_method < NUM_TRAVERSAL_METHODS))
 __CPROVER_assigns(self->buffer->pos_, self->pos_data_decoder_id_, self->traversal_method, __CPROVER_object_whole(self->attribute_data_decoder_id));
 
+/* DecodeHoleAndTopologySplitEvents on ARBITRARY bytes (C18/C02): every element appended to the split / hole event tables is paid for by at least one
+ * byte of input consumed by this call; a bulk reservation must be justified by the number of faces already decoded or by the remaining input;
+ * the number of split events never exceeds the number of faces; edge bits are written only to existing events; the reader only moves forward. */
+int ghost_gb_mode; uint32_t ghost_gb_reads;
+void tsvec_push(struct EvCtx *self, struct DecoderBuffer *b) __CPROVER_requires(self->ts_size + self->he_size < (size_t)(b->pos_ - self->entry_pos)) __CPROVER_ensures(self->ts_size == __CPROVER_old(self->ts_size) + 1) __CPROVER_assigns(self->ts_size);
+void hevec_push(struct EvCtx *self, struct DecoderBuffer *b) __CPROVER_requires(self->ts_size + self->he_size < (size_t)(b->pos_ - self->entry_pos)) __CPROVER_ensures(self->he_size == __CPROVER_old(self->he_size) + 1) __CPROVER_assigns(self->he_size);
+void evvec_reserve(struct EvCtx *self, struct DecoderBuffer *b, size_t n) __CPROVER_requires(n <= (size_t)self->ct_num_faces || (int64_t)n <= self->remaining_at_entry) __CPROVER_ensures(1) __CPROVER_assigns();
+void ts_set_edge(struct EvCtx *self, uint32_t i, uint32_t edge) __CPROVER_requires((size_t)i < self->ts_size) __CPROVER_ensures(1) __CPROVER_assigns();
+void GB_Start(struct DecoderBuffer *b) __CPROVER_requires(ghost_gb_mode == 0) __CPROVER_ensures(ghost_gb_mode == 1) __CPROVER_assigns(ghost_gb_mode);
+bool GB_Decode(struct DecoderBuffer *b, uint32_t nbits, uint32_t *v) __CPROVER_requires(ghost_gb_mode == 1 && nbits <= 32) __CPROVER_ensures(ghost_gb_reads == __CPROVER_old(ghost_gb_reads) + 1) __CPROVER_assigns(*v, ghost_gb_reads);
+void GB_End(struct DecoderBuffer *b) __CPROVER_requires(ghost_gb_mode == 1 && DB_INV(b)) __CPROVER_ensures(ghost_gb_mode == 0 && DB_INV(b) && b->pos_ >= __CPROVER_old(b->pos_)) __CPROVER_assigns(ghost_gb_mode, b->pos_);
+int32_t EB_DecodeHoleAndTopologySplitEvents(struct EvCtx *self, struct DecoderBuffer *decoder_buffer)
+__CPROVER_requires(__CPROVER_is_fresh(self, sizeof(struct EvCtx)) && DB_FRESH(decoder_buffer) && decoder_buffer->data_size_ <= ((int64_t)1 << 31) - 1 && self->ts_size == 0 && self->he_size == 0 && self->ct_num_faces >= 0 && \
+                   self->entry_pos == decoder_buffer->pos_ && self->remaining_at_entry == decoder_buffer->data_size_ - decoder_buffer->pos_ && ghost_gb_mode == 0)
+__CPROVER_ensures(DB_INV(decoder_buffer) && decoder_buffer->pos_ >= __CPROVER_old(decoder_buffer->pos_))
+__CPROVER_ensures(__CPROVER_return_value == -1 || (__CPROVER_return_value == (int32_t)decoder_buffer->pos_ && ghost_gb_mode == 0))
+__CPROVER_ensures(self->ts_size <= (size_t)self->ct_num_faces && self->ts_size + self->he_size <= (size_t)(decoder_buffer->pos_ - __CPROVER_old(decoder_buffer->pos_)))
+__CPROVER_assigns(decoder_buffer->pos_, self->ts_size, self->he_size, ghost_gb_mode, ghost_gb_reads);
+
 /* kd-tree output iterator: a decoded point may only be stored into an attribute value slot that exists (C02/C03).  PointAttribute is a stub:
  * mapped_index returns ANY index (the map is stream controlled for legacy streams), SetAttributeValue requires the slot to exist. */
 uint32_t PA_mapped_index(const struct PAStub *a, uint32_t point_id) __CPROVER_ensures(1) __CPROVER_assigns();
@@ -47,5 +66,6 @@ __CPROVER_assigns();
 void h_enf_KdOutIt_assign_vec3(void) { GHOSTS(); struct KdOutIt *it; const uint32_t *v; KdOutIt_assign_vec3(it, v); HARNESS_END(); }
 void h_enf_AttributesDecoder_Prologue(void) { GHOSTS(); struct GuardCtx *c; struct DecoderBuffer *b; AttributesDecoder_Prologue(c, b); HARNESS_END(); }
 void h_enf_Edgebreaker_ClaimAttributeData(void) { GHOSTS(); struct ClaimCtx *c; int32_t id; Edgebreaker_ClaimAttributeData(c, id); HARNESS_END(); }
+void h_enf_EB_DecodeHoleAndTopologySplitEvents(void) { GHOSTS(); ghost_gb_mode = 0; ghost_gb_reads = 0; struct EvCtx *c; struct DecoderBuffer *b; EB_DecodeHoleAndTopologySplitEvents(c, b); HARNESS_END(); }
 void h_enf_Edgebreaker_Header(void) { GHOSTS(); struct GuardCtx *c; Edgebreaker_Header(c); HARNESS_END(); }
 #endif
